@@ -139,7 +139,7 @@ func c05(c *Ctx) {
 					c.R.Eval(1)
 					evs, _ := syncEvents(ch)
 					if err != nil {
-						c.R.Inconclusive(caseID, "http:"+err.Error())
+						transportFailure(c, nil, evs, caseID, err, map[string]any{"proto": protoText, "rpc": rpc, "handler_returned": fmt.Sprint(M)})
 					} else {
 						rp := map[string]any{"proto": protoText, "rpc": rpc, "handler_returned": fmt.Sprint(M), "status": resp.Status, "server_json": string(resp.Body), "model_json": string(jsonmap.Marshal(wantTree))}
 						for _, e := range evs {
@@ -182,7 +182,7 @@ func c05(c *Ctx) {
 					c.R.Eval(1)
 					evs, _ := syncEvents(ch)
 					if err != nil {
-						c.R.Inconclusive(caseID, "http:"+err.Error())
+						transportFailure(c, nil, evs, caseID, err, map[string]any{"proto": protoText, "rpc": rpc, "request_json": string(body)})
 						continue
 					}
 					rp := map[string]any{"proto": protoText, "rpc": rpc, "request_json": string(body), "value": fmt.Sprint(M), "status": resp.Status, "response_body": string(resp.Body)}
